@@ -3,14 +3,20 @@ pub mod config;
 pub mod swarm;
 pub mod workers;
 
+#[cfg(not(aquatic_verif))]
 use std::thread::{available_parallelism, sleep, Builder, JoinHandle};
+#[cfg(aquatic_verif)]
+use aquatic_verif_rt::thread::{available_parallelism, sleep, Builder, JoinHandle};
 use std::time::Duration;
 
 use anyhow::Context;
 use aquatic_common::WorkerType;
 use crossbeam_channel::unbounded;
 use signal_hook::consts::SIGUSR1;
+#[cfg(not(aquatic_verif))]
 use signal_hook::iterator::Signals;
+#[cfg(aquatic_verif)]
+use aquatic_verif_rt::signal::Signals;
 
 use aquatic_common::access_list::update_access_list;
 use aquatic_common::privileges::PrivilegeDropper;
